@@ -431,6 +431,7 @@ func Drive(w *ev.Writer, o Opts) error {
 		}
 		w.Emit(ev.M{"k": "Reset", "name": h.Name, "part": "rt"})
 		var texts [][]byte
+		var sdocs []seqDoc
 		for i := 0; i < nval; i++ {
 			p, val, err := randomValue(h, r)
 			if err != nil {
@@ -440,7 +441,17 @@ func Drive(w *ev.Writer, o Opts) error {
 			if t != nil && len(t) <= 700 {
 				texts = append(texts, t)
 			}
+			if t != nil && len(t) <= 3000 && len(sdocs) < 400 {
+				sdocs = append(sdocs, seqDoc{t, val})
+			}
 		}
+		// decoding into a reused target: chains of random documents through one variable / reused slice elements
+		w.Emit(ev.M{"k": "Reset", "name": h.Name, "part": "reuse"})
+		chains := 6
+		if thorough {
+			chains = 60
+		}
+		randomReuse(w, h, sdocs, r, chains, 8)
 		w.Emit(ev.M{"k": "Reset", "name": h.Name, "part": "mut"})
 		if len(texts) == 0 {
 			continue
@@ -518,6 +529,28 @@ func Replay(in string, w *ev.Writer, shard, shards int) error {
 			text := roundTrip(w, h, p, val, extra)
 			if num(v["mut"]) == 1 && text != nil {
 				mutate(w, h, text, nil, false, ev.M{"src": "vec", "vec": n, "cls": v["cls"]})
+			}
+		case "Seq":
+			vals, _ := v["vals"].([]any)
+			var docs []seqDoc
+			for _, av := range vals {
+				p, err := h.Build(av)
+				if err != nil {
+					return fmt.Errorf("vector %d (%s %v): cannot build the value: %v", n, h.Name, v["cls"], err)
+				}
+				val, pan := dumpSafe(h, p)
+				if pan != "" {
+					return fmt.Errorf("vector %d: dump panicked: %s", n, pan)
+				}
+				text, errc, pan := marshalRaw(p)
+				if pan != "" || errc != "" {
+					docs = nil // the round-trip vectors report an encoder that fails
+					break
+				}
+				docs = append(docs, seqDoc{text, norm(val)})
+			}
+			if len(docs) >= 2 {
+				reuseSequence(w, h, docs, extra)
 			}
 		case "Dec":
 			doc, err := hex.DecodeString(v["doc"].(string))
